@@ -514,6 +514,21 @@ class TypeAliasValue(Value):
             val = val.substitute_typevars(typevars)
         return val
 
+    def substitute_typevars(self, typevars: TypeVarMap) -> Value:
+        if not self.type_arguments:
+            return self
+        return TypeAliasValue(
+            self.name,
+            self.module,
+            self.alias,
+            tuple(arg.substitute_typevars(typevars) for arg in self.type_arguments),
+        )
+
+    def walk_values(self) -> Iterable[Value]:
+        yield self
+        for arg in self.type_arguments:
+            yield from arg.walk_values()
+
     def is_type(self, typ: type) -> bool:
         return self.get_value().is_type(typ)
 
